@@ -12,6 +12,7 @@ import (
 
 	"github.com/oasisprotocol/curve25519-voi/curve"
 	"github.com/oasisprotocol/curve25519-voi/curve/scalar"
+	"github.com/oasisprotocol/curve25519-voi/zzverif/fluent"
 	"github.com/oasisprotocol/curve25519-voi/zzverif/gen"
 	"github.com/oasisprotocol/curve25519-voi/zzverif/hist"
 	"github.com/oasisprotocol/curve25519-voi/zzverif/mon"
@@ -487,6 +488,10 @@ func (x *ctx) msmUnknown(rng *rand.Rand, size int) {
 }
 
 func runCase(r *mon.Run, c Case, pool []gen.KP) {
+	if c.Kind == "fluent" {
+		fluentCheck(r)
+		return
+	}
 	rng := r.Rng(c.Stream)
 	x := &ctx{r: r, c: c, pool: pool, h: hist.New(r.Rng(c.Stream + "/receivers"))}
 	defer func() { r.HistN("receivers-with-a-past", x.h.Uses) }()
@@ -546,5 +551,12 @@ func main() {
 	r.Sample("case", cases[0])
 	r.Sample("case", cases[len(cases)/2])
 	r.Sample("case", cases[len(cases)-1])
+	fluentCheck(r)
 	r.Finish()
+}
+
+// fluentCheck: every "sets the receiver and returns it" method of this property's types must return its receiver
+// (package fluent).
+func fluentCheck(r *mon.Run) {
+	fluent.Check(r, Case{Kind: "fluent"}, (*curve.EdwardsPoint)(nil), (*curve.ExpandedEdwardsPoint)(nil), (*curve.EdwardsBasepointTable)(nil))
 }
